@@ -523,12 +523,16 @@ def gen_rate_runs(ctx, N):
         y0 = rng.vec(m, 1.0); S0 = [rng.choice([0.5, 1.0, 4.0, 10.0]) for _ in range(m)]
         Lf = wr_lipschitz(prob, S0)
         P = {"max_iter": rng.choice([10, 25, 40, 60]), "crit": rng.choice(sl.CRITS), "qub_tol": 0.0, "max_no_progress": 1000}
-        mode = rng.choice(["fixed", "fixed", "L0-small", "L0-small", "L0-ok", "fd", "cap"])
+        mode = rng.choice(["fixed", "fixed", "L0-small", "L0-small", "L0-ok", "fd", "cap", "cap-odd", "cap-odd"])
         p2 = 2.0 ** math.ceil(math.log2(Lf))
         if mode == "fixed": L = p2 * rng.choice([1.0, 1.0, 2.0]); P["L_min"] = L; P["L_max"] = L
         elif mode == "L0-small": P["L_0"] = p2 / rng.choice([4.0, 64.0, 1024.0])
         elif mode == "L0-ok": P["L_0"] = p2 * rng.choice([1.0, 4.0])
         elif mode == "cap": P["L_0"] = p2 / 32.0; P["L_max"] = p2 * rng.choice([1.0, 2.0])
+        elif mode == "cap-odd":
+            # the doubling sequence from L_0 does not hit L_max: the last doubling overshoots the cap (allowed: the guard is L < L_max), and
+            # L_max is the Lipschitz constant itself or slightly above, so stopping one doubling short leaves the upper bound violated
+            P["L_max"] = Lf * rng.choice([1.0, 1.0, 1.25, 1.5]); P["L_0"] = P["L_max"] * rng.choice([0.7, 0.6, 0.9]) / rng.choice([8.0, 32.0, 128.0])
         P["Lgamma"] = rng.choice([1.0, 1.0, 0.95, 0.5])
         if rng.random() < 0.2: P["noaccel"] = True
         kw = {}
